@@ -135,6 +135,8 @@ impl WriteStallController {
 				return Ok(None);
 			}
 
+			#[cfg(surrealkv_verif)]
+			crate::verif::yield_point("stall:counts-sampled");
 			// Stalled - determine which condition triggered it
 			let (reason, value, threshold) =
 				if counts.immutable_memtables >= self.thresholds.memtable_limit {
